@@ -176,8 +176,12 @@ class AbstractTreeName(AbstractNameDefinition):
                 else:
                     i = trailer.parent.children.index(trailer)
                     to_infer = trailer.parent.children[:i]
-                    if to_infer[0] == 'await':
+                    if to_infer and to_infer[0] == 'await':
                         to_infer.pop(0)
+                    if not to_infer:
+                        # Broken code like `class a(\n    a=1`: there is
+                        # nothing in front of the arguments.
+                        return []
                     value_set = context.infer_node(to_infer[0])
                     from jedi.inference.syntax_tree import infer_trailer
                     for trailer in to_infer[1:]:
